@@ -108,7 +108,7 @@ Proof.
   eexists. split.
   - apply (replaced_statement_rejected_if st ds j _ _ (lower_first (of_string n) ++ rest) eq_refl (cr_fact st) Hst Hwf Hn).
     + intros c0 H. discriminate.
-    + apply (SyntaxProofs.pline_ok_bad_case T_now terminals_ok n rest Htype Hrest).
+    + apply (SyntaxProofs.pline_ok_bad_case T_now terminals_ok eq_refl n rest Htype Hrest).
     + intro ac. apply (SyntaxProofs.alias_bad_case T_now terminals_ok eq_refl ac n rest Htype).
   - cbn [e_line e_col]. split; [reflexivity|]. unfold len. rewrite !app_length. cbn [length]. lia.
 Qed.
